@@ -785,6 +785,8 @@ func workerMain(markerPath string) {
 				runLpBurst(t, a)
 			case "lpreconf":
 				runLpReconf(t, a)
+			case "lpfrag":
+				runLpFrag(t, a)
 			}
 			for k := range a.distinct {
 				a.res.Distinct = append(a.res.Distinct, k)
@@ -819,6 +821,14 @@ func describeCase(t task, a *acc) {
 		fr := burstFrames(c)
 		ex["input_hex"] = inputHex(fr[len(fr)-1].bytes)
 		ex["len"] = len(fr[len(fr)-1].bytes)
+		return
+	}
+	if t.Family == -4 { // fragment history with inserted rejected frames
+		ev, lo, _ := fragHistory(t.Lo)
+		ex["case"] = fmt.Sprintf("n=%d local=%v: %s", lpConfigs[t.N].n, lpConfigs[t.N].local, fragDescribe(ev))
+		fr := fragFrame(lpConfigs[t.N].n, ev[lo])
+		ex["input_hex"] = inputHex(fr)
+		ex["len"] = len(fr)
 		return
 	}
 	if t.Family == -3 { // reconfiguration history
